@@ -69,6 +69,9 @@ pub fn run(runs: &[Value], max_samples: usize) -> Outcome {
         let entropy = Entropy::parse(par.get("entropy").and_then(Value::as_str).unwrap_or("high"));
         let pieces: Vec<usize> = par.get("pieces").and_then(Value::as_array)
             .map(|a| a.iter().map(|x| x.as_u64().unwrap() as usize).collect()).unwrap_or_default();
+        // "prop": the labels are only an operation sequence for a stack the model does not describe
+        // (raw, stackings): observables are still checked against cursor semantics, short reads are followed
+        let prop_level = par.get("level_of_model").and_then(Value::as_str) == Some("prop");
         let plain = cells::content(seed, 0, l, entropy);
 
         let mut bytes = cells::content(seed ^ 0xdead, 99, offset as usize, Entropy::High);
@@ -107,7 +110,12 @@ pub fn run(runs: &[Value], max_samples: usize) -> Outcome {
                         "seekCur" => (SeekFrom::Current(arg), abs as i64 + arg),
                         _ => (SeekFrom::End(-arg), l as i64 - arg),
                     };
-                    if let Some(ta) = to_abs { assert_eq!(ta, target, "model ghost disagrees with ByteStream target"); }
+                    if prop_level && (target < 0 || target > l as i64) {
+                        continue; // after a followed short read a relative seek may leave [0, L]: not specified
+                    }
+                    if !prop_level {
+                        if let Some(ta) = to_abs { assert_eq!(ta, target, "model ghost disagrees with ByteStream target"); }
+                    }
                     match guarded(|| reader.seek(sf)) {
                         Ok(Ok(p)) => {
                             got = json!({"res": "ok", "pos": p});
@@ -142,7 +150,7 @@ pub fn run(runs: &[Value], max_samples: usize) -> Outcome {
                                 violation = Some(json!({"kind": "premature-eof", "abs": abs, "L": l}));
                             }
                             abs += k;
-                            if lab.get("k").and_then(Value::as_i64) != Some(k as i64) {
+                            if !prop_level && lab.get("k").and_then(Value::as_i64) != Some(k as i64) {
                                 diverged = true; // legal short read the model did not predict
                             }
                         }
@@ -173,6 +181,9 @@ pub fn run(runs: &[Value], max_samples: usize) -> Outcome {
                     out.drift_samples.push(json!({"run": ri, "par": par, "step": si, "why": "short-read", "lab": lab, "got": got}));
                 }
                 break;
+            }
+            if prop_level {
+                continue;
             }
             if let Some(ok) = hidden_matches(stack, &step["to"], &hs) {
                 out.hidden_compared += 1;
